@@ -144,6 +144,13 @@ def run(ctx):
                  "%s writes with %s: one poll_write, the count of bytes taken is not looked at - what the socket did not take at once is lost (a mangled reply for a slow client, a server left waiting for the rest of a large request)"
                  % (fn.split("::")[-1], sorted({c.name.split("::")[-1] for c in part}) or "no write_all"))
     r3.check(nwh >= 3, "write-helpers", "%d write helpers found" % nwh, "write helpers of messages.rs not found (%d)" % nwh)
+    # the documented difference - a renamed statement - changes the name and nothing else: Bind::rename patches the client's bytes (clauses shared with C08-R1)
+    from common import bind_rename_findings
+    for key_, ok_, okm_, fm_ in bind_rename_findings(F):
+        if ok_ is None:
+            r3.missing(fm_)
+        else:
+            r3.check(ok_, key_, okm_, fm_)
     rs = ctx.body(RSM + "::{closure#0}", r3)
     if rs:
         oks = [(blk, st) for blk, i, st in rs.assigns() if st["lhs"]["l"] == 0 and st["rv"]["k"] == "agg" and st["rv"].get("variant") == "Ok"]
